@@ -55,20 +55,25 @@ def specified_pairs(names, pairwise, heuristic):
     return pairs, listlen
 
 
-def run_graph(names, heuristic, pairwise, cap, ref_json=''):
+def run_graph(names, heuristic, pairwise, cap, ref_json='', workers=1):
     import pandas as pd
     from outrank import core_ranking as cr
     harness.reset_state()
     df = pd.DataFrame({c: [str((i * (j + 2)) % 3) for i in range(3)] for j, c in enumerate(names)})
     args = harness.make_args(heuristic=heuristic, target_ranking_only='False' if pairwise else 'True', combination_number_upper_bound=cap, reference_model_JSON=ref_json)
+    if workers > 1:
+        from mc import vpool
+        pool = vpool.VirtualPool(workers, tuple(i % workers for i in range(64)))
+    else:
+        pool = harness.InlinePool()
     with warnings.catch_warnings():
         warnings.simplefilter('ignore')
-        res = cr.mixed_rank_graph(df, args, harness.InlinePool(), harness.NullBar())
+        res = cr.mixed_rank_graph(df, args, pool, harness.NullBar())
     return res.triplet_scores, args
 
 
-def judge(names, heuristic, pairwise, cap, ref_json=''):
-    ok, res = safe(run_graph, names, heuristic, pairwise, cap, ref_json)
+def judge(names, heuristic, pairwise, cap, ref_json='', workers=1):
+    ok, res = safe(run_graph, names, heuristic, pairwise, cap, ref_json, workers)
     if not ok:
         return [({'kind': 'exception'}, f'mixed_rank_graph raised {res}')]
     trip, args = res
@@ -124,6 +129,13 @@ def _job(job):
                     for sig, msg in judge(names, heuristic, pairwise, cap):
                         st.violation({'columns': names, 'heuristic': heuristic, 'pairwise': pairwise, 'cap': cap}, msg,
                                      dict(sig, heuristic=heuristic, pairwise=pairwise))
+                    if cap == listlen and heuristic == 'MI-numba-randomized' and len(names) <= 5:
+                        # the same request served by pools of 2, 3 and 4 workers (pair counts that are and are not multiples of the pool size)
+                        for workers in (2, 3):
+                            st.count('evaluations')
+                            for sig, msg in judge(names, heuristic, pairwise, cap, '', workers):
+                                st.violation({'columns': names, 'heuristic': heuristic, 'pairwise': pairwise, 'cap': cap, 'workers': workers}, f'pool of {workers} workers: ' + msg,
+                                             dict(sig, heuristic=heuristic, pairwise=pairwise, workers=True))
     if job:
         st.sample({'columns': job[-1], 'heuristic': 'MI-numba-3mr', 'pairwise': True, 'cap': 3})
     return st
@@ -231,4 +243,4 @@ def eval_case(case):
         return seqdiff.replay(seq_call, seq_menu(tuple(case['job'])), case['seq'])
     if case.get('ref_json'):
         return [v['what'] for v in _refjson(None).violations]
-    return [m for _, m in judge(case['columns'], case['heuristic'], case['pairwise'], case['cap'])]
+    return [m for _, m in judge(case['columns'], case['heuristic'], case['pairwise'], case['cap'], '', case.get('workers', 1))]
